@@ -156,6 +156,7 @@ class Rig:
         res = dict(rc=p.returncode, stdout=out.decode(errors="replace"), stderr=err.decode(errors="replace"),
                    tap=read_jsonl(tap), log=read_jsonl(logp), wall=t_end - t0, dir=d, t0=t0, t_end=t_end,
                    sent=sent, timed_out=timed_out, cmd=cmd, private=private, stderr_bytes=err, stdout_bytes=out)
+        res["tap_all"] = read_jsonl(tap, with_received=True)   # emitted + received (hook H1b) in file order
         junit = os.path.join(PUPPET, "target", "nextest")
         res["junit_dir"] = junit
         if not keep:
@@ -166,16 +167,21 @@ class Rig:
         shutil.rmtree(res.get("dir", ""), ignore_errors=True)
 
 
-def read_jsonl(path):
+def read_jsonl(path, with_received=False):
+    """with_received=False drops the lines hook H1b writes into the tap file for the events the
+    dispatcher *received* ("dir":"in"), so that readers of the emitted stream see what they always saw"""
     out = []
     if os.path.exists(path):
         for line in open(path, errors="replace"):
             line = line.strip()
             if line:
                 try:
-                    out.append(json.loads(line))
+                    rec = json.loads(line)
                 except ValueError:
                     out.append({"unparsable": line})
+                    continue
+                if with_received or not (isinstance(rec, dict) and rec.get("dir") == "in"):
+                    out.append(rec)
     return out
 
 
